@@ -122,6 +122,13 @@ def skipOptionSpec (es : Elems) : Outcome Elems := do
   let (n, r) ← readElem es
   if n.toNat ≤ r.length then return r.drop n.toNat else fault (.err .eof)
 
+/-- `io::copy(&mut reader.by_ref().take(bytes), &mut io::sink())` on a stream of whole elements, for a byte count that is
+a multiple of 8 (the only ones `skip_option` forms: `elements * 8`, wrapped or not): up to `bytes / 8` elements are consumed
+— fewer when the stream ends first, silently — and the number of bytes consumed is reported -/
+def copyTakeSink (es : Elems) (bytes : Word) : Outcome (Word × Elems) :=
+  let k := min (bytes.toNat / 8) es.length
+  ok (BitVec.ofNat 64 (8 * k), es.drop k)
+
 /-! ### structures -/
 
 def rawVecC : Codec RawVec where
